@@ -313,7 +313,7 @@ def restore(workdir, m):
     shutil.copy(os.path.join(REPO, m['file']), os.path.join(workdir, m['file']))
 
 
-def run_check(prop, workdir, scratch, timeout=1500):
+def run_check(prop, workdir, scratch, timeout=420):
     env = dict(os.environ, VERIF_REPO=workdir, VERIF_EVIDENCE_DIR=scratch,
                VERIF_REPLAY_DIR=scratch, VERIF_TLC_CACHE=os.path.join(OUT, '.tlc_cache'),
                PYTHONDONTWRITEBYTECODE='1')
